@@ -139,6 +139,9 @@ def run_case(case, wall=8.0, max_steps=6000):
                         timeline.append((max(it["disp"], it.get("at", 0)), 1, "disp", i))
                 timeline.sort()
                 horizon = 0
+                if case.get("type") == "shared":
+                    ctl.no_preempt = True  # all items are queued before the loop thread's first turn (the model's premise)
+                nsched = 0
                 for t, _o, what, i in timeline:
                     sleep_until(t)
                     it = items[i]
@@ -159,6 +162,9 @@ def run_case(case, wall=8.0, max_steps=6000):
                                 when = when.astimezone(timezone(timedelta(hours=it["tz"])))
                             disposables[i] = sched.schedule_absolute(when, mk_action(i))
                         horizon = max(horizon, run["due"][i])
+                        nsched += 1
+                        if nsched == len(items):
+                            ctl.no_preempt = False
                     else:
                         disposables[i].dispose()
                         run["disposed_at"][i] = ctl.clock
@@ -166,6 +172,7 @@ def run_case(case, wall=8.0, max_steps=6000):
                     sleep_until(horizon + 1)
                     ctl.wait_until(lambda: all(run["starts"][i] or run["disposed_at"][i] is not None or False
                                                for i in range(len(items))) or True)
+                    log.append(("U", -1, "end", tid()))
                     sched.dispose()
 
             ctl.spawn(user, "user")
@@ -223,3 +230,40 @@ def project(case, r):
         elif e[0] == "L" and e[1] == 0 and e[2].startswith("check") and pc == 1:
             evs.append([0, e[2]]); pc = 5
     return {"kind": "evloop", "immediate": immediate}, evs
+
+
+def project_shared(case, r):
+    """several relative items queued at time 0 on one EventLoopScheduler: observed events -> request for
+    `loopn_replay` and the labels the model must produce."""
+    n = len(case["items"])
+    due = r["due"]
+    order = sorted(range(n), key=lambda i: (due[i], i))
+    loop_tid = None
+    for e in r["log"]:
+        if e[0] == "now" and e[1] not in (0, -1):
+            loop_tid = e[1]
+            break
+    acts, labels = [], []
+    pc = 0  # 0 expecting top, 1 in the check loop, 2 after bottom (wait or next top)
+    for e in r["log"]:
+        if e[0] == "U" and e[2] == "end":
+            break
+        if e[0] == "clock":
+            acts.append(["tick", int(e[1])]); labels.append(f"tick{int(e[1])}")
+        elif e[0] == "L" and e[2] == "dispose":
+            acts.append(["dispose", e[1]]); labels.append(f"dispose{e[1]}")
+        elif e[0] == "L" and e[2].startswith("check"):
+            acts.append(["loop"]); labels.append(f"check{e[1]}-{e[2][6:]}")
+        elif e[0] == "now" and e[1] == loop_tid:
+            if pc == 1:  # end of the check loop, then the bottom read
+                acts += [["loop"], ["loop"]]; labels += ["drained", "bottom"]
+                pc = 2
+            else:
+                acts.append(["loop"]); labels.append("top")
+                pc = 1
+        elif e[0] == "W" and e[1] == loop_tid and pc == 2:
+            acts.append(["loop"]); labels.append("wake")
+            pc = 0
+    if pc == 1:
+        acts += [["loop"], ["loop"]]; labels += ["drained", "idle"]
+    return {"op": "loopn_replay", "order": order, "ranks": [int(d) for d in due], "sched": acts}, labels
